@@ -196,8 +196,38 @@ def classify_surface(inp):
     return 'hit'
 
 
+def oracle_parametric_batch(inp):
+    """NumPy secant intersection on a BATCH of rays: either the whole batch is flagged (False, False) or every returned
+    row is a converged solution: a row that has no solution (or was not iterated to convergence) must not come back as a number"""
+    binp = dict(inp); binp['ray'] = inp['rays']
+    r = guarded('parametric', 'w_parametric', binp)
+    res = [('flags_agree', r['flag_distance'] == r['flag_normal'], 'distance and normal both False or both values', [r['flag_distance'], r['flag_normal']])]
+    if not r['flag_distance']:
+        dist = r['distance']
+        ok = len(dist) == len(inp['rays'])
+        res.append(('one_distance_per_ray', ok, len(inp['rays']), len(dist)))
+        if ok:
+            tol = 1e-8 if inp.get('target_error') is None else inp['target_error']
+            bad = []
+            for k, ray in enumerate(inp['rays']):
+                one = dict(inp, ray=ray)
+                cls = classify_surface(one)
+                t = dist[k]
+                if not math.isfinite(t):
+                    continue                                     # a NaN row is a flag
+                if cls in ('miss', 'degenerate'):
+                    bad.append({'row': k, 'class': cls, 'distance': t}); continue
+                A, B, C = quad_coeffs(one)
+                if not (t >= 0 and abs(surf_f(one, t)) <= 10 * tol + 1e-6 * max(1.0, abs(C))):
+                    bad.append({'row': k, 'class': cls, 'distance': t, 'f': surf_f(one, t)})
+            res.append(('unflagged_rows_are_on_surface', not bad, 'every finite row satisfies |f(o + dist d)| <= 10 target_error + 1e-6 scale', bad[:4]))
+    return res
+
+
 def oracle_parametric(inp):
     """NumPy secant intersection (sphere / cylinder): returns, flags a miss, and an unflagged distance is on the surface"""
+    if inp.get('rays') is not None:
+        return oracle_parametric_batch(inp)
     r = guarded('parametric', 'w_parametric', inp)
     cls = classify_surface(inp)
     res = [('flags_agree', r['flag_distance'] == r['flag_normal'], 'distance and normal both False or both values', [r['flag_distance'], r['flag_normal']])]
@@ -367,6 +397,14 @@ def gen_parametric(ctx, n):
                     'target_error': te, 'iter_no_limit': 500, 'case': 'tolerance=%g' % te})
     for lim in (0, 1, 2):
         out.append({'fn': 'intersect_parametric', 'kind': 'sphere', 'surface': sph, 'ray': [[0, 0, 0], [0.0, 0.0, 1.0]], 'iter_no_limit': lim, 'case': 'limit=%d' % lim})
+    # batches: solvable rays together with a ray that has no solution, in every position
+    okr = [[[0.0, 0.0, 0.0], [0.0, 0.0, 1.0]], [[1.0, 0.5, 0.0], (np.array([0.05, 0.02, 1.0]) / np.linalg.norm([0.05, 0.02, 1.0])).tolist()], [[-1.0, 0.3, 1.0], [0.0, 0.0, 1.0]]]
+    for name_, badr in (('zero-direction', [[0.5, 0.0, 0.0], [0.0, 0.0, 0.0]]), ('miss', [[5.0, 0.0, 0.0], [0.0, 0.0, 1.0]]), ('nan', [[0.0, 0.0, 0.0], [float('nan'), 0.0, 1.0]])):
+        for pos in range(4):
+            rays = okr[:pos] + [badr] + okr[pos:]
+            out.append({'fn': 'intersect_w_sphere' if name_ != 'miss' else 'intersect_parametric', 'kind': 'sphere', 'surface': sph, 'rays': rays,
+                        'iter_no_limit': None if name_ != 'miss' else 300, 'case': 'batch/%s@%d' % (name_, pos)})
+    out.append({'fn': 'intersect_w_sphere', 'kind': 'sphere', 'surface': sph, 'rays': okr, 'case': 'batch/all-solvable'})
     for i in range(n):
         kind = rng.choice(['sphere', 'cylinder'])
         c = np.array([rng.uniform(-3, 3) for _ in range(3)]); r = 10 ** rng.uniform(-1, 1)
